@@ -111,13 +111,17 @@ func (o *out) ln(level int, text string, noise bool) (int, int) {
 			}
 		}
 		if o.l.R.Intn(12) < o.l.Comment {
-			switch o.l.R.Intn(3) {
+			switch o.l.R.Intn(5) {
 			case 0:
 				o.raw("# note " + fmt.Sprint(o.l.R.Intn(100)) + "\n")
 			case 1:
 				o.raw(o.indentStr(level) + "# indented: note [x] \"q\" <: int\n")
-			default:
+			case 2:
 				o.raw(o.indentStr(level) + "#\n")
+			case 3:
+				o.raw(o.indentStr(level+1+o.l.R.Intn(3)) + "# deeper than the next line\n")
+			default:
+				o.raw(strings.Repeat(" ", o.l.R.Intn(11)) + "# at an arbitrary column\n")
 			}
 		}
 	}
